@@ -157,7 +157,10 @@ class BuildError(Exception):
     pass
 
 
-def build_driver(name, variant="plain", with_lib=True, extra=(), srcs=None, defines=()):
+NCPU = os.cpu_count() or 4
+
+
+def build_driver(name, variant="plain", with_lib=True, extra=(), srcs=None, defines=(), parts=0):
     """Compile harness/<name>.cxx against the current /repo and link it."""
     d = os.path.join(build_dir(), variant)
     os.makedirs(d, exist_ok=True)
@@ -171,10 +174,24 @@ def build_driver(name, variant="plain", with_lib=True, extra=(), srcs=None, defi
         if os.path.exists(exe) and os.path.getmtime(exe) >= newest:
             return exe
         t0 = time.time()
-        cmd = [CXX, "-std=c++20", "-I", os.path.join(REPO, "include"), "-I", HARNESS,
-               "-I", os.path.join(build_dir(), "gen"),
-               "-D" + GUARD, "-w"] + ["-D" + x for x in defines] + VARIANTS[variant] + list(extra) + \
-            srcs + objs + ["-o", exe, "-lpthread"]
+        base = [CXX, "-std=c++20", "-I", os.path.join(REPO, "include"), "-I", HARNESS,
+                "-I", os.path.join(build_dir(), "gen"),
+                "-D" + GUARD, "-w"] + ["-D" + x for x in defines] + VARIANTS[variant] + list(extra)
+        part_objs = []
+        if parts:
+            # the generated dispatcher is split into translation units compiled in parallel
+            import concurrent.futures as cf
+            psrc = os.path.join(HARNESS, name + "_part.cxx")
+
+            def one(k):
+                o = os.path.join(d, "%s_part%d.o" % (name, k))
+                q = run(base + ["-DPART=%d" % k, "-DNPARTS=%d" % parts, "-c", psrc, "-o", o], timeout=1200)
+                if q.returncode != 0:
+                    raise BuildError("driver part build failed: %s\n%s" % (psrc, q.stderr[-8000:]))
+                return o
+            with cf.ThreadPoolExecutor(max_workers=min(parts, NCPU)) as ex:
+                part_objs = list(ex.map(one, range(parts)))
+        cmd = base + ["-DNPARTS=%d" % parts] + srcs + part_objs + objs + ["-o", exe, "-lpthread"]
         p = run(cmd, timeout=1200)
         if p.returncode != 0:
             raise BuildError("driver build failed: %s\n%s" % (" ".join(cmd), p.stderr[-8000:]))
